@@ -181,3 +181,10 @@ Example escape_example :
   escape_bytes [0; 10; 34; 65; 92; 200; 255]
   = [92;48;48;48; 92;110; 92;34; 65; 92;92; 92;51;49;48; 92;51;55;55].
 Proof. split; [repeat constructor|vm_compute; reflexivity]. Qed.
+
+(* distinct byte strings never get the same escaped default value *)
+Theorem escape_injective_lemma : forall a b, Bytes a -> Bytes b -> escape_bytes a = escape_bytes b -> a = b.
+Proof.
+  intros a b Ha Hb E. pose proof (unescape_escape_lemma a Ha) as H1. pose proof (unescape_escape_lemma b Hb) as H2.
+  rewrite E in H1. rewrite H1 in H2. injection H2 as H. exact H.
+Qed.
